@@ -198,8 +198,21 @@ fn gen_for_raw(prop: &str, seed: u64) -> Scenario {
             }
         }
     }
+    if matches!(prop, "C01" | "C02" | "C03" | "C07") && rng.chance(1, 8) {
+        // the guarantee is for every dispatch - also for those that follow one in which a system
+        // panicked (caught by the caller): arm a panic in the first call, judge all calls
+        while sc.calls.len() < 3 {
+            sc.calls.push(Call::Dispatch);
+        }
+        let inf = infos(&sc.regs);
+        if !inf.is_empty() {
+            let v = inf[rng.below(inf.len() as u64) as usize].sid;
+            let kind = *rng.pick(&[FaultKind::PanicBefore, FaultKind::PanicMid, FaultKind::PanicAfter]);
+            sc.faults.push(Fault { sid: v, call: 0, kind, arg: 0 });
+        }
+    }
     #[cfg(feature = "sim")]
-    if prop == "C15" || (matches!(prop, "C01" | "C02" | "C03" | "C04" | "C11" | "C12" | "C13") && rng.chance(1, 7)) {
+    if prop == "C15" || (matches!(prop, "C01" | "C02" | "C03" | "C04" | "C05" | "C11" | "C12" | "C13") && rng.chance(1, 7)) {
         crate::afamily::asyncify(&mut sc, &mut rng);
         return sc;
     }
@@ -979,6 +992,16 @@ pub fn explore(prop: &str, seed: u64, thorough: bool, st: &mut Stats) -> Vec<Rep
         explore_async(prop, seed, &sc, thorough, st, &mut rng, &mut found);
         return found;
     }
+    if prop == "C13" && seed % 6 == 0 {
+        // dispose does not presuppose setup: a dispatcher that was never set up (the world may
+        // have been filled by other means) hands every system to its dispose hook all the same
+        let nb = build(&sc, &BuildOpts { do_setup: false, ..BuildOpts::default() });
+        st.runs += 1;
+        Stats::bump(&mut st.probes, "dispose_without_setup", 1);
+        for v in eval_dispose(nb) {
+            push_found(prop, &mut found, st, &v, || mk_replay(prop, seed, &sc, "nosetup", &StratSpec::NoPreempt, 0, None, 0, &v));
+        }
+    }
     let mut b = build(&sc, &BuildOpts::default());
     let lay_digest = fnv(b.layout.canonical().as_bytes());
     st.layouts.insert(lay_digest);
@@ -999,17 +1022,23 @@ pub fn explore(prop: &str, seed: u64, thorough: bool, st: &mut Stats) -> Vec<Rep
             *CUR.lock().unwrap() = Some((serde_json::to_value(&p.sc).unwrap(), p.mode.to_string(), p.strat.clone(), p.rs, seed, has_rdv));
         }
         // the pool is part of the built dispatcher: a variant with another pool gets its own
-        let mut own;
+        let mut own: Option<Built> = None;
         // and a run with an injected panic starts from a fresh dispatcher, so that every record
         // is reproducible on its own (what a panic leaves behind is checked inside that run,
-        // by the recovery dispatch)
+        // by the recovery dispatch, and by disposing that dispatcher afterwards)
         let bref = if p.sc.pool != sc.pool || p.sc.from_pool != sc.from_pool || !p.sc.faults.is_empty() && p.sc.faults.iter().any(|f| f.kind != FaultKind::Rendezvous) {
-            own = build(&p.sc, &BuildOpts::default());
-            &mut own
+            own = Some(build(&p.sc, &BuildOpts::default()));
+            own.as_mut().unwrap()
         } else {
             &mut b
         };
-        let o = eval_on(bref, &p.sc, p.mode, &p.strat, p.rs, None);
+        let mut o = eval_on(bref, &p.sc, p.mode, &p.strat, p.rs, None);
+        if let Some(ob) = own.take() {
+            if p.sc.faults.iter().any(|f| f.kind != FaultKind::Rendezvous) {
+                // a dispatcher that has been through a caught panic still owns every system
+                o.violations.extend(eval_dispose(ob));
+            }
+        }
         crate::driver::chain(o.digest);
         st.runs += 1 + (p.mode == "cmp") as u64;
         st.steps += o.steps;
@@ -1062,6 +1091,7 @@ pub fn explore(prop: &str, seed: u64, thorough: bool, st: &mut Stats) -> Vec<Rep
 #[cfg(feature = "sim")]
 fn explore_async(prop: &str, seed: u64, sc: &Scenario, thorough: bool, st: &mut Stats, rng: &mut Rng, found: &mut Vec<Replay>) {
     use crate::afamily::*;
+    COMPARE_WITH_SEQ.store(prop == "C05", Ordering::Relaxed);
     let mut b = build_async(sc);
     let lay_digest = fnv(b.layout.canonical().as_bytes());
     st.layouts.insert(lay_digest);
@@ -1140,10 +1170,15 @@ pub fn eval_replay(r: &Replay) -> EvalOut {
     let sc: Scenario = serde_json::from_value(r.scenario.clone()).expect("scenario");
     #[cfg(feature = "sim")]
     if sc.asyncd && r.mode != "static" {
+        crate::afamily::COMPARE_WITH_SEQ.store(r.property == "C05", Ordering::Relaxed);
         let mut b = crate::afamily::build_async(&sc);
         let o = crate::afamily::eval_async_on(&mut b, &sc, &r.strategy, r.run_seed, r.trace.clone());
         crate::afamily::dispose_async(b);
         return EvalOut { violations: o.violations, digest: o.digest, trace: o.trace, steps: o.steps };
+    }
+    if r.mode == "nosetup" {
+        let nb = build(&sc, &BuildOpts { do_setup: false, ..BuildOpts::default() });
+        return EvalOut { violations: eval_dispose(nb), digest: 0, trace: vec![], steps: 0 };
     }
     let mut b = build(&sc, &BuildOpts::default());
     let mut vs = eval_static(&b);
